@@ -100,7 +100,7 @@ type Exec struct {
 	decOrigin   map[**sym.Term]decInfo
 	b64Origin   map[string][]*sym.Term
 	guardDepth  int
-	sums        map[*ssa.Function]*fnSummary
+	sums        map[string]*fnSummary
 	guard       []*sym.Term
 	udpSocks    map[*Object]*udpSock
 	udpNextPort int
